@@ -87,8 +87,15 @@ def rand_intpt(rng, hs_dim, nsteps, maxbond=3, allow_rank3=True, transforms=Fals
         else:
             din = rng.choice([d2, max(1, d2 - 1), d2 + 1])
             dout = rng.choice([d2, max(1, d2 - 1), d2 + 1])
-        tin = gint(rng, (d2, din), lo, hi, real)
-        tout = gint(rng, (dout, d2), lo, hi, real)
+        if transforms in ("in", "out"):     # a transform on one side only: the other leg is in the system basis already
+            if rank3:
+                din = dout = d2
+            elif transforms == "in":
+                dout = d2
+            else:
+                din = d2
+        tin = gint(rng, (d2, din), lo, hi, real) if transforms != "out" else None
+        tout = gint(rng, (dout, d2), lo, hi, real) if transforms != "in" else None
     bonds = [1] + [rng.randint(1, maxbond) for _ in range(nsteps)]
     if last_trivial:
         bonds[-1] = 1
